@@ -166,6 +166,9 @@ def gen_bytes(job):
                             if (w.bit_length() + 7) // 8 == k:
                                 bodies.append(w.to_bytes(k, "big"))
                         j += 1
+                if z == 0:
+                    from vf.runner import lookalikes
+                    bodies += [b for b in lookalikes(k) if b[:1] != b"\x00"]
                 seen = set()
                 for body in bodies:
                     b = b"\x00" * z + body
